@@ -300,6 +300,7 @@ def run(chk: Check):
         "end; every alternative of the master pattern is one named group of width >= 1 and every advance of the position either "
         "returns a token, starts an accumulation at the token's start, or is the backslash continuation; INDENT/DEDENT pair with "
         "pushes and pops and the stream ends DEDENT* ENDMARKER. Order follows from the monotone position writes (C03 T1).")
+    chk.explanation += ' Also evaluated here: the string-continuation test is exact over LF/CRLF/no line ending and the search-path lexeme has a unique end (K6).'
     chk.trusted = ["xpverif.constfold", "re._parser widths", "syntactic normalisation of expressions"]
     chk.assumptions = ["a regex match starts at the position it was asked to start at (re semantics)",
                        "synthetic MACRO_PARAM tokens of the parser-side Tokenizer are outside C08 (anchored to tokenize.py)"]
